@@ -143,6 +143,52 @@ def compare_forwarded(orig_raw, fwd, true_sender):
     return diffs
 
 
+def reentrant_order(ctx):
+    """In-process peers react at once: B answers a message while the bus is still passing it on, and A, on getting that
+    answer, writes its next message - all inside the bus' handling of A's first read, which still holds a further
+    message.  A wrote First, Second, then Third: that is the order in which B must get them."""
+    for variant in range(8):
+        net = busnet.Net()
+        a = net.raw_client()
+        b = net.raw_client()
+        little = [bool(variant & 1), bool(variant & 2), bool(variant & 4)]
+        mk = lambda tok, k: RM.build(RM.SIGNAL if k != 1 else RM.METHOD_CALL, a.next_serial(),
+                                     {'path': '/o', 'member': 'M', 'interface': 'a.b', 'destination': b.unique},
+                                     's', [tok], little[k])
+        first, second, third = mk('tokFirst', 0), mk('tokSecond', 1), mk('tokThird', 2)
+        state = {'b': 0, 'a': 0}
+
+        def hook_b(kind, payload):
+            if kind == 'write' and b'tokFirst' in payload and not state['b']:
+                state['b'] = 1
+                b.server.feed(RM.build(RM.METHOD_RETURN, b.next_serial(), {'reply_serial': 1, 'destination': a.unique},
+                                       's', ['answer']))
+
+        def hook_a(kind, payload):
+            if kind == 'write' and b'answer' in payload and not state['a']:
+                state['a'] = 1
+                a.server.feed(third)
+        b.server.t.on_event = hook_b
+        a.server.t.on_event = hook_a
+        a.server.feed(first + second)
+        net.collect_all()
+        got = [_token_of(m) for m in b.take() if _token_of(m)]
+        ctx.count('evaluations')
+        ctx.count('reentrant_order_cases')
+        w = {'byte_orders': little, 'received_by_b': got, 'reactions_ran': dict(state)}
+        if net.crashes():
+            w['crash'] = repr(net.crashes()[0])
+            ctx.report('crash', 'a bus-side connection crashed during re-entrant delivery: %r' % (net.crashes()[0],), w,
+                       {'kind': 'reentrant-order'})
+            return
+        if state == {'b': 1, 'a': 1}:
+            ctx.count('reentrant_reactions_ran')
+        if got != ['tokFirst', 'tokSecond', 'tokThird']:
+            ctx.report('order-violated', 'A wrote First, Second, Third to B; B received %r' % got, w,
+                       {'kind': 'reentrant-order'})
+            return
+
+
 def run_history(ctx, seed, idx):
     r = random.Random('%s/c14/%s' % (seed, idx))
     case = {'kind': 'hist', 'idx': idx}
@@ -433,6 +479,8 @@ def run(ctx):
                 'dead / unknown / own names with forged, absent or stolen sender fields, flags and bodies with narrow-typed '
                 'variants, broadcasts, calls addressed to the bus itself; every delivery compared on the wire with the '
                 'original. distinct_nontrivial = distinct (op, type, forged, flags, body signature, deliverable, fan-out)')
+    if si == 0:
+        reentrant_order(ctx)
     n = (2500 if quick else 60000) // sn
     ctx.budget(50 if quick else 540)
     for i in range(n):
